@@ -14,9 +14,10 @@ type c14 struct{}
 
 func init() { register("C14", func() world { return c14{} }) }
 
-func accF(s, v int) int       { return 31*s + v + 1 }
+func accF(s, v int) int             { return 31*s + v + 1 }
 func predF(m, r int) func(int) bool { return func(v int) bool { return v%m == r } }
-func keyF(m int) func(int) int { return func(v int) int { return v % m } }
+func keyF(m int) func(int) int      { return func(v int) int { return v % m } }
+
 // eqF: the equals family shared with the judge (Drv/C14.lean): m > 0: a%m == b%m (symmetric); m == 0: "a is half of b"
 // (NOT symmetric, so the argument order in which the helper calls equals is observable)
 func eqF(m int) func(a, b int) bool {
